@@ -76,11 +76,14 @@ def gen_stmt(rng, current):
         return sql, "(mk_stmt (KSelect true) [])", "lib", current
     if r < 0.58:
         # reads catalog databases only
-        shape = rng.choice(["one", "join", "union", "sub", "where"])
+        shape = rng.choice(["one", "join", "union", "sub", "where", "cte"])
         a_sql, a_db, a_ldb, a_t = catalog_table(rng, current)
         b_sql, b_db, b_ldb, b_t = catalog_table(rng, current)
         ca, cb = CAT_COL[a_t], CAT_COL[b_t]
-        if shape == "one":
+        if shape == "cte" and a_db is not None:
+            # a CTE whose body reads a catalog table: the reference to the CTE itself is not a table of any database
+            return (f"WITH c AS (SELECT {ca} FROM {a_sql}) SELECT {ca} FROM c", f"(mk_stmt (KSelect false) [{opt(a_db)}])", "lib", current)
+        if shape in ("one", "cte"):
             return f"SELECT {ca} FROM {a_sql}", f"(mk_stmt (KSelect false) [{opt(a_db)}])", "lib", current
         if shape == "where":
             return f"SELECT {ca} FROM {a_sql} WHERE {ca} <> 'zz'", f"(mk_stmt (KSelect false) [{opt(a_db)}])", "lib", current
